@@ -657,7 +657,9 @@ func matchTree(c *crit, n *sqlNode, path string) *c20diff {
 // when the text cannot even be read
 func worstClass(c *crit) string {
 	best := "plain"
-	rank := map[string]int{"plain": 0, "column": 0, "number": 0, "bool": 0, "time": 0, "string": 1, "number-beyond-int64": 3}
+	// an unreadable text can only come from a string operand, so strings
+	// with special characters outrank everything else
+	rank := map[string]int{"plain": 0, "column": 0, "number": 0, "bool": 0, "time": 0, "string": 1, "number-beyond-int64": 2}
 	visit := func(o *operand) {
 		cl := operandClass(o)
 		if cl == "string" {
@@ -667,7 +669,7 @@ func worstClass(c *crit) string {
 			}
 			if sc := stringClass(s.s); sc != "plain" {
 				cl = "string-" + sc
-				rank[cl] = 2
+				rank[cl] = 3
 			}
 		}
 		if rank[cl] > rank[best] {
